@@ -10,7 +10,7 @@ Definition run (fam : bytes) (c : value) : value :=
   else if beq fam (B "tolonglong") then run_tolonglong c
   else if beq fam (B "bytesprim") then run_bytesprim c
   else if beq fam (B "split") then run_split c
-  else if beq fam (B "sock") then run_sock c
+  else if beq fam (B "sock") || beq fam (B "sockl") then run_sock c
   else if beq fam (B "socknet") then run_socknet c
   else if beq fam (B "srv") then run_srv c
   else if beq fam (B "srvm") then run_srvm c
@@ -45,13 +45,13 @@ Definition chk (prop fam : bytes) (c o : value) : bool :=
   else if beq prop (B "C13") then (if beq fam (B "proxy") then chk_C13 c o else true)
   else if beq prop (B "C10") then (if beq fam (B "lifed") then chk_C10_lifed c o else if beq fam (B "life") then chk_C10_life c o
                                         else if beq fam (B "proxy") then chk_C11 c o else true)
-  else if beq prop (B "C11") then chk_C11 c o
+  else if beq prop (B "C11") then (if beq fam (B "fs") then chk_C11_fs c o else chk_C11 c o)
   else if beq prop (B "C20") then (if beq fam (B "tls") then chk_C20 c o else true)
   else if beq prop (B "C15") then (if beq fam (B "slot") then chk_C15 c o else if beq fam (B "slotm") then chk_C15m c o else true)
   else if beq prop (B "C17") then chk_C17 fam c o
   else if beq prop (B "C14") then (if beq fam (B "copier") then chk_C14 c o else true)
   else if beq prop (B "C18") then (if beq fam (B "sock") then chk_C18 c o else true)
-  else if beq prop (B "C19") then (if beq fam (B "sock") then chk_C19_sock c o else if beq fam (B "srv") then chk_C19_srv c o else if beq fam (B "socknet") then chk_C19_net c o else true)
+  else if beq prop (B "C19") then (if beq fam (B "sock") || beq fam (B "sockl") then chk_C19_sock c o else if beq fam (B "srv") then chk_C19_srv c o else if beq fam (B "socknet") then chk_C19_net c o else true)
   else true.
 
 (* decimal I/O for the driver (arbitrary precision) *)
